@@ -203,6 +203,13 @@ func c12Run(w *W, idx int) {
 	r := w.Rand(idx)
 	var tree *Node
 	stratum := "binary-sequences"
+	if idx%600 == 599 {
+		// large programs dense in two-leaf operators: more than 16383 real nodes that still fit with their event nodes
+		k := []int{5600, 6000, 7000, 8000}[r.Intn(4)]
+		tree = sumTreeNode(k, func(int) *Node { return Op("+", TInt, Var("i0", TInt), Lit(int64(1))) })
+		c12Big(w, r, tree)
+		return
+	}
 	if idx%3 == 0 {
 		tree = c12Shapes(r)
 	} else {
@@ -459,6 +466,35 @@ func c12Race(w *W, idx int) {
 					w.Fail("panic/"+normPanic(o.Panic)+"@"+panicSite(o.Stack), "evaluation panicked in the race workload: %v", o.Panic)
 				}
 			}
+		}
+	}
+}
+
+// c12Big: event mode on a large program: same result, events arrive, no panic.
+func c12Big(w *W, r *rand.Rand, tree *Node) {
+	src := tree.Prefix()
+	w.Inc("programs")
+	w.Inc("programs_big")
+	b := Binding{Vals: map[string]interface{}{"i0": int64(2)}}
+	for _, opts := range []OptSet{OptFE, OptAll, OptNone} {
+		pcfg := CaseCfg{Opts: opts, VarNames: []string{"i0"}}
+		plain, ok := compileVariant(w, tree, src, pcfg, "plain")
+		if !ok {
+			continue
+		}
+		ecfg := pcfg
+		ecfg.Events = 1 + r.Intn(2)
+		evv, ok := compileVariant(w, tree, src, ecfg, "events")
+		if !ok {
+			continue // rejected by the capacity limits (legitimate when the event nodes do not fit) or already reported
+		}
+		w.Inc("big_event_programs_compiled")
+		po, _ := callExpr(plain.E, CallEval, fetcherFor(b, nil), nil, false)
+		eo, evs := runWithConsumer(evv.E, CallEval, fetcherFor(b, nil), "buffered")
+		w.Evals += 2
+		w.Count("opexec_events", int64(len(opExecOnly(evs))))
+		if !outcomeEq(po, eo) {
+			w.Fail("event-mode-changes-result/big", "large program (%d source nodes): plain gives %s, event mode gives %s\nconfig: %s", tree.Size(), po, eo, ecfg)
 		}
 	}
 }
